@@ -1,5 +1,6 @@
 import Txtpp.Lemmas.Term
 import Txtpp.Lemmas.CoordScanInv
+import Txtpp.Lemmas.SeenClosure
 /-!
 # Property C03 — every run terminates and completes each required file exactly once
 -/
@@ -27,6 +28,18 @@ theorem delivery_budget (w : World) (inputs : List File) (n : Nat) (s : St) (h :
 under every schedule -/
 theorem terminates (w : World) (inputs U : List File) (n : Nat) (s : St) (h : ReachN w inputs n s)
     (hseen : s.seen.length ≤ U.length) : n ≤ 2 * U.length := Coord.terminates w inputs U n s h hseen
+
+/-- termination, closed form: over any finite universe `U` that contains the inputs and is closed
+under dependencies, no execution — cyclic or not, any schedule, any thread count — has more than
+`2·|U|` deliveries -/
+theorem terminates_over_closed_universe (w : World) (inputs U : List File) (hin : ∀ i ∈ inputs, i ∈ U)
+    (hcl : ∀ f ∈ U, ∀ d ∈ w.deps f, d ∈ U) (n : Nat) (s : St) (h : ReachN w inputs n s) : n ≤ 2 * U.length :=
+  terminates_closed w inputs U hin hcl n s h
+
+/-- only required files are ever processed: every file the coordinator sees is reachable from an
+input along dependency edges -/
+theorem only_required_files_processed (w : World) (inputs : List File) (s : St) (h : Reach w inputs s) :
+    ∀ f ∈ s.seen, ∃ i ∈ inputs, Path w.deps i f := seen_reachable w inputs s h
 
 /-- success means completion: at an exit without leftover (circular) edges every seen file —
 every input and everything transitively included — is finished -/
